@@ -25,10 +25,11 @@ for pid in ids:
         })
     else:
         na.append({"property_id": pid, "reason": na_reasons.get(pid, "not claimed yet: no model/theorem/correspondence check has been built for it in this round (planned in DESIGN.md §8); nothing is asserted about it")})
-hooks_commits = []
-hp = os.path.join(V, "hooks.json")
-if os.path.exists(hp):
-    hooks_commits = json.load(open(hp))
+import subprocess
+# hook commits in /repo are recognised by their subject line ("hook: …"); fixes by "fix: …"
+hooks_commits = subprocess.run(["git", "-C", "/repo", "log", "--format=%H %s", "--grep=^hook:"],
+                               capture_output=True, text=True).stdout.strip().split("\n")
+hooks_commits = [l for l in hooks_commits if l]
 man = {
     "version": 1,
     "setup_cmd": "python3 tools/setup.py",
